@@ -285,6 +285,7 @@ pub fn run(run: &Run) {
     idx.par_iter().for_each(|&i0| {
         let i = (i0 + seed) % total;
         let text = &texts[i];
+        let _w = run.watch("formula", "formula", text);
         let Ok(f) = text.parse::<fol::Formula>() else {
             run.skipped.fetch_add(1, std::sync::atomic::Ordering::Relaxed);
             return;
